@@ -277,7 +277,7 @@ pub fn pattern_with(rng: &mut Rng, forced: Option<u64>) -> (Pos, &'static str) {
     for _ in 0..200 {
         let which = match forced {
             Some(k) => k,
-            None => rng.below(19),
+            None => rng.below(21),
         };
         let mut p = Pos::empty();
         let name: &'static str;
@@ -568,10 +568,102 @@ pub fn pattern_with(rng: &mut Rng, forced: Option<u64>) -> (Pos, &'static str) {
                 let k = *rng.pick(&[Kind::N, Kind::Q, Kind::R, Kind::B]);
                 place_random(&mut p, rng, Kind::K, Col::W);
                 place_random(&mut p, rng, Kind::K, Col::B);
-                for _ in 0..rng.range(4, 8) {
+                // up to the most that promotions allow: ten knights / bishops / rooks, nine queens
+                let most = if k == Kind::Q { 9 } else { 10 };
+                let n = if rng.chance(1, 3) { most - rng.below(2) } else { rng.range(4, 8) };
+                for _ in 0..n {
                     place_random(&mut p, rng, k, Col::W);
                 }
-                p.stm = Col::W;
+                if n >= 9 {
+                    // what is left of the army: the other original officers sometimes, pawns that were not promoted
+                    let promoted = n - if k == Kind::Q { 1 } else { 2 };
+                    for _ in 0..rng.below(9 - promoted) {
+                        let s = rng.range(8, 55) as usize;
+                        if p.sq[s].is_none() && p.men(Col::W) < 16 {
+                            p.sq[s] = Some((Kind::P, Col::W));
+                        }
+                    }
+                }
+                p.stm = if rng.chance(1, 4) { Col::B } else { Col::W };
+            }
+            19 => {
+                // a king in the crossfire of many enemy sliders (promoted material): nine or more stand on its lines,
+                // most of them masked by a man next to the king
+                name = "king_in_slider_crossfire";
+                let ks = rng.below(64) as u8;
+                p.sq[ks as usize] = Some((Kind::K, Col::B));
+                let mut sliders = 0;
+                let want = rng.range(8, 13);
+                for (i, (df, dr)) in [(1, 0), (-1, 0), (0, 1), (0, -1), (1, 1), (1, -1), (-1, 1), (-1, -1)].iter().enumerate() {
+                    let (mut f, mut r) = (file_of(ks) + df, rank_of(ks) + dr);
+                    let mut first = true;
+                    while let Some(t) = mk(f, r) {
+                        if first {
+                            first = false;
+                            if rng.chance(5, 6) {
+                                // the mask: a man that does not attack along this line
+                                let m = match rng.below(4) {
+                                    0 => (Kind::N, Col::B),
+                                    1 => (Kind::N, Col::W),
+                                    2 => (if i < 4 { Kind::B } else { Kind::R }, Col::W),
+                                    _ => (if i < 4 { Kind::B } else { Kind::R }, Col::B),
+                                };
+                                if p.men(m.1) < 15 {
+                                    p.sq[t as usize] = Some(m);
+                                }
+                            }
+                        } else if sliders < want && rng.chance(3, 5) && p.men(Col::W) < 15 {
+                            let k = if rng.chance(1, 2) { Kind::Q } else if i < 4 { Kind::R } else { Kind::B };
+                            p.sq[t as usize] = Some((k, Col::W));
+                            sliders += 1;
+                        }
+                        f += df;
+                        r += dr;
+                    }
+                }
+                place_random(&mut p, rng, Kind::K, Col::W);
+                p.stm = if rng.chance(3, 4) { Col::W } else { Col::B };
+                if p.strict_validity_error().is_some() {
+                    p.stm = p.stm.other();
+                }
+            }
+            20 => {
+                // the only legal moves are the capture-promotions of a diagonally pinned pawn (rejection sampling)
+                name = "only_pinned_promotion";
+                let mut found = None;
+                for _ in 0..300 {
+                    let mut q = Pos::empty();
+                    let f = rng.range(0, 7) as i32;
+                    let d = if rng.chance(1, 2) { 1 } else { -1 };
+                    let k = rng.range(1, 6) as i32;
+                    let (ps, ss, ks) = match (mk(f, 6), mk(f + d, 7), mk(f - d * k, 6 - k)) {
+                        (Some(a), Some(b), Some(c)) => (a, b, c),
+                        _ => continue,
+                    };
+                    q.sq[ps as usize] = Some((Kind::P, Col::W));
+                    q.sq[ss as usize] = Some((if rng.chance(1, 2) { Kind::B } else { Kind::Q }, Col::B));
+                    q.sq[ks as usize] = Some((Kind::K, Col::W));
+                    if !place_random(&mut q, rng, Kind::K, Col::B) {
+                        continue;
+                    }
+                    for _ in 0..rng.range(2, 4) {
+                        let kk = *rng.pick(&[Kind::R, Kind::R, Kind::Q, Kind::N, Kind::B]);
+                        place_random(&mut q, rng, kk, Col::B);
+                    }
+                    q.stm = Col::W;
+                    if !kings_apart(&q) || q.strict_validity_error().is_some() || q.in_check() {
+                        continue;
+                    }
+                    let lm = q.legal_moves();
+                    if !lm.is_empty() && lm.iter().all(|m| m.from == ps && m.promo.is_some()) {
+                        found = Some(q);
+                        break;
+                    }
+                }
+                match found {
+                    Some(q) => p = q,
+                    None => continue,
+                }
             }
             15 => {
                 // two pawns on the seventh, two files apart, an enemy man between them on the last rank
